@@ -30,29 +30,45 @@ def fired_by(args):
         shutil.rmtree(tmp, ignore_errors=True)
 
 def main():
-    inc = os.path.join(VERIF, 'seeded', '_incoming')
     dirs = []
-    for prop in sorted(os.listdir(inc)):
-        pd = os.path.join(inc, prop)
-        if os.path.isdir(pd):
-            for i in sorted(os.listdir(pd)):
-                d = os.path.join(pd, i)
-                if os.path.exists(os.path.join(d, 'patch.diff')):
-                    dirs.append(d)
+    ids = {}
+    blind = {}
+    bl = os.path.join(VERIF, 'seeded', 'wave3_blind_evaluation.log')
+    if os.path.exists(bl):
+        for line in open(bl):
+            if line.startswith('seeded/_incoming3/') and ':' in line:
+                k, rest = line.split(':', 1)
+                k = k.split(' ')[0]
+                rest = rest.strip()
+                blind[os.path.join(VERIF, k)] = rest
+    # wave 1+2: ids Cxx-1..3; wave 3: ids Cxx-4, Cxx-5
+    for sub, offset, wave in (('_incoming', 0, '1-2'), ('_incoming3', 3, '3')):
+        inc = os.path.join(VERIF, 'seeded', sub)
+        if not os.path.isdir(inc):
+            continue
+        for prop in sorted(os.listdir(inc)):
+            pd = os.path.join(inc, prop)
+            if os.path.isdir(pd):
+                for i in sorted(os.listdir(pd)):
+                    d = os.path.join(pd, i)
+                    if os.path.exists(os.path.join(d, 'patch.diff')):
+                        dirs.append(d)
+                        ids[d] = ('%s-%d' % (prop, int(i) + offset), wave)
     with ProcessPoolExecutor(8) as ex:
         fired = dict(ex.map(fired_by, [(d,) for d in dirs]))
     index = []
     for d in dirs:
         prop, i = d.split(os.sep)[-2:]
-        sid = '%s-%s' % (prop, i)
+        sid, wave = ids[d]
         conf = json.load(open(os.path.join(d, 'confirm.json'))) if os.path.exists(os.path.join(d, 'confirm.json')) else {}
         meta = json.load(open(os.path.join(d, 'meta.json')))
         out = os.path.join(VERIF, 'seeded', sid)
         os.makedirs(out, exist_ok=True)
         shutil.copy(os.path.join(d, 'patch.diff'), out)
         shutil.copy(os.path.join(d, 'demo.py'), out)
-        if os.path.exists(os.path.join(d, 'patch.orig.diff')):
-            shutil.copy(os.path.join(d, 'patch.orig.diff'), out)
+        for extra in ('patch.orig.diff', 'patch.orig2.diff'):
+            if os.path.exists(os.path.join(d, extra)):
+                shutil.copy(os.path.join(d, extra), out)
         f = fired.get(d)
         caught = sorted(p for p, r in (f or {}).items() if r != ['ANALYSIS-ERROR'])
         m = {
@@ -69,10 +85,13 @@ def main():
             },
             'checks_that_fire': f,
             'caught_by': caught,
+            'wave': wave,
         }
+        if d in blind:
+            m['blind_evaluation_before_strengthening'] = blind[d]
         json.dump(m, open(os.path.join(out, 'meta.json'), 'w'), indent=1)
         index.append({'id': sid, 'property': prop, 'confirmed': bool(conf.get('confirmed')), 'caught_by': caught,
-                      'rules': {p: r for p, r in (f or {}).items()}})
+                      'rules': {p: r for p, r in (f or {}).items()}, 'wave': wave, 'blind': blind.get(d)})
     json.dump(index, open(os.path.join(VERIF, 'seeded', 'index.json'), 'w'), indent=1)
     for e in index:
         print('%-8s %-5s confirmed=%-5s caught_by=%s' % (e['id'], e['property'], e['confirmed'], ','.join(e['caught_by']) or 'MISSED'))
